@@ -99,8 +99,10 @@ pub const VALUE_FAULTS: [Fault; 15] = [
     Fault::NegVolume,
     Fault::ZeroVolume,
 ];
-/// finite, non-negative, magnitude-bounded disturbances (legal for C17)
-pub const FINITE_FAULTS: [Fault; 12] = [
+/// finite, magnitude-bounded disturbances (legal for C17)
+pub const FINITE_FAULTS: [Fault; 14] = [
+    Fault::Negative,
+    Fault::NegVolume,
     Fault::Spike10,
     Fault::Spike1e3,
     Fault::Spike1e6,
